@@ -139,7 +139,7 @@ func errorReturnsAfter(p *Pkg, fn *ast.FuncDecl, after string, cleanup [][]strin
 					}
 					ok = ok && found
 				}
-				out = append(out, errReturn{p.Src(s), ok})
+				out = append(out, errReturn{srcNoText(p, s), ok})
 			case *ast.IfStmt:
 				// the `if err := X(); err != nil { return … }` that contains the call itself
 				// is the failure of X, not a failure after X
@@ -168,6 +168,29 @@ func errorReturnsAfter(p *Pkg, fn *ast.FuncDecl, after string, cleanup [][]strin
 	return out
 }
 
+// srcNoText prints n with every string literal replaced by "…": what an error return SAYS is
+// not a fact any property depends on (rewording a message preserves behaviour); which returns
+// exist, in which order, what they wrap and what precedes them is.
+func srcNoText(p *Pkg, n ast.Node) string {
+	type saved struct {
+		lit *ast.BasicLit
+		val string
+	}
+	var lits []saved
+	ast.Inspect(n, func(x ast.Node) bool {
+		if l, ok := x.(*ast.BasicLit); ok && l.Kind == token.STRING {
+			lits = append(lits, saved{l, l.Value})
+			l.Value = "\"…\""
+		}
+		return true
+	})
+	out := p.Src(n)
+	for _, sv := range lits {
+		sv.lit.Value = sv.val
+	}
+	return out
+}
+
 func leanErrReturns(rs []errReturn) string {
 	var q []string
 	for _, r := range rs {
@@ -185,10 +208,20 @@ func guardOf(p *Pkg, fn *ast.FuncDecl, mu, closed string) string {
 		}
 		return p.Src(l[i])
 	}
-	rguard := "if " + closed + " { " + mu + ".RUnlock() return "
-	if src(0) == mu+".RLock()" && strings.HasPrefix(src(1), rguard) &&
-		strings.Contains(src(1), "storage is closed") && src(2) == mu+".RUnlock()" {
-		return "rlock-closed-test"
+	// `mu.RLock(); if closed { mu.RUnlock(); return …, <an error> }; mu.RUnlock()` — recognised by its
+	// shape: the refusal returns a freshly made error (fmt.Errorf / errors.New) as its last result,
+	// whatever that error says
+	if src(0) == mu+".RLock()" && len(l) > 2 && src(2) == mu+".RUnlock()" {
+		if is, ok := l[1].(*ast.IfStmt); ok && is.Init == nil && is.Else == nil && p.Src(is.Cond) == closed &&
+			len(is.Body.List) == 2 && p.Src(is.Body.List[0]) == mu+".RUnlock()" {
+			if rs, ok := is.Body.List[1].(*ast.ReturnStmt); ok && len(rs.Results) > 0 {
+				if c, ok := rs.Results[len(rs.Results)-1].(*ast.CallExpr); ok {
+					if f := p.Src(c.Fun); f == "fmt.Errorf" || f == "errors.New" {
+						return "rlock-closed-test"
+					}
+				}
+			}
+		}
 	}
 	wguard := "if " + closed + " { " + mu + ".Unlock() return "
 	if src(0) == mu+".Lock()" && strings.HasPrefix(src(1), wguard) && src(2) == closed+" = true" && src(3) == mu+".Unlock()" {
